@@ -10,12 +10,27 @@ Model-independent like `kern` (the output column is the constant `ok`): it suppo
 otherwise unexercised public API and is not a proof. `run(ck, mode)` is called from the check of the property whose
 statement supplies the oracle; `mode` is the harness mode (`c01`, `c03`, `c04`, `c06`, … — see harness/src/bin/apicov.rs)."""
 import hashlib
+import re
 
 BIN = "apicov"
 
 
-def run(ck, cov_mode):
+def _own(ck, msg, tags):
+    """A failure message names the property whose statement supplied the violated oracle ("C11 get_n 4 vs scan 3",
+    "C13/C14 serde …"); a check counts a failure only if one of its messages names its own property (or one of `tags`) or
+    names no property at all (a library panic inside the scenario). Failures that belong to another property are that
+    property's business — they are tallied in the evidence (stat apicov_foreign_failures) and raise no alarm here."""
+    own = False
+    for part in msg.split(";"):
+        found = set(re.findall(r"\bC\d\d\b", part))
+        if not found or (found & tags):
+            own = True
+    return own
+
+
+def run(ck, cov_mode, tags=None):
     mode = "public-api-coverage"
+    tags = set(tags or []) | {ck.prop}
     # the bin is (re)built here as well, so the oracle never runs a stale binary if "apicov" is missing from the caller's BINS
     # (a no-op when the caller already built it)
     if not ck.cargo_build([BIN]):
@@ -34,6 +49,9 @@ def run(ck, cov_mode):
         if c["nt"]:
             ck.distinct.add(hashlib.sha1((mode + c["input"]).encode()).hexdigest())
         if c["output"].strip() != "ok" or c["oracle"] is None or c["oracle"].startswith("FAIL"):
+            if c["oracle"] and c["oracle"].startswith("FAIL") and not _own(ck, c["oracle"][5:], tags):
+                ck.stats["apicov_foreign_failures"] = ck.stats.get("apicov_foreign_failures", 0) + 1
+                continue
             fails += 1
             ck.add_failure("oracle", mode, c, "ok", (c["oracle"] or "FAIL:no verdict")[5:], True)
     prev = ck.modes.get(mode)
